@@ -13,7 +13,7 @@ symbolic, so the values left in the target can be compared with the naive evalua
 import itertools
 
 from astdb import AnalysisBroken
-from interp import (Interp, Hooks, Obj, Cell, Ptr, Region, Thrown, Unsupported, OutOfBounds, Opaque, NULL, UNDEF, Ref)
+from interp import (Interp, Hooks, Obj, Cell, Ptr, Region, Thrown, Unsupported, OutOfBounds, Opaque, NULL, UNDEF, Ref, ArrayView)
 from kernels import SUV
 from poly import Poly
 from stdmodel import StdHooks
@@ -137,6 +137,17 @@ def mk_vector(world, name, kind, d, prefix, offset_choice=True):
         o.field('ptr_offset').value = off
         o.field('isinit').value = 1
         o.field('isinit_d').value = 0
+    elif kind == 'plain':
+        # self-owned storage as the component-list and matrix constructors make it: exactly size doubles from a
+        # plain allocation, offset 0, and (as the allocator is free to do) not optimally aligned
+        b = world.new_block(d * d, 'heap', 'entry state of ' + name + ' (plain allocation)', addr=8, entry=True)
+        b.region.make = lambda k, p=prefix: Poly.var('%s%d' % (p, k))
+        o.field('dim').value = d
+        o.field('size').value = d * d
+        o.field('components').value = Ptr(b.region, 0)
+        o.field('ptr_offset').value = 0
+        o.field('isinit').value = 1
+        o.field('isinit_d').value = 0
     elif kind == 'ext':
         b = world.new_block(d * d, 'ext', 'user buffer of ' + name, addr=8, entry=True)
         b.region.make = lambda k, p=prefix: Poly.var('%s%d' % (p, k))
@@ -213,7 +224,19 @@ class OwnHooks(StdHooks):
         if meth == 'get':
             return p
         if meth == 'operator[]':
-            return it.deref(it.ptr_add(p, it.eval(args[0])), node)
+            i = it.eval(args[0])
+            if isinstance(p, Ptr) and p.dims:
+                if not isinstance(i, int):
+                    raise Unsupported('symbolic row index at %s' % it.loc(node))
+                width = 1
+                for x in p.dims:
+                    width *= x
+                if p.region is not None and isinstance(p.region.size, int) and not (0 <= p.off + i * width and p.off + (i + 1) * width <= p.region.size):
+                    e = OutOfBounds(p.region, p.off + i * width)
+                    e.where = it.loc(node)
+                    raise e
+                return Cell(ArrayView(p.region, p.off + i * width, p.dims), None, 0, 'row')
+            return it.deref(it.ptr_add(p, i), node)
         if meth == 'operator bool':
             return 0 if p.is_null() else 1
         if meth == 'release':
@@ -238,9 +261,15 @@ class OwnHooks(StdHooks):
             raise Thrown(node, 'std::bad_alloc (injected at allocation %d)' % w.alloc_count, it.unit)
         if not isinstance(count, int):
             raise Unsupported('symbolic allocation size at %s' % site)
-        b = w.new_block(count, 'heap', site)
+        # new T[n] with T itself an array type (rows of fixed width): one block of n*width elements, addressed by rows
+        import re as _re
+        dims = [int(x) for x in _re.findall(r'\[(\d+)\]', elem_type or '')]
+        width = 1
+        for x in dims:
+            width *= x
+        b = w.new_block(count * width, 'heap', site)
         w.events.append(('new', b.region.name, site))
-        return Ptr(b.region, 0)
+        return Ptr(b.region, 0, dims) if dims else Ptr(b.region, 0)
 
     def on_delete(self, it, node, ptr, is_array):
         w = self.w
@@ -329,6 +358,8 @@ class OwnHooks(StdHooks):
             b.cached_offset = off
             w.cache.setdefault(dim, []).append(b)
             w.events.append(('cache-insert', b.region.name, dim))
+            if isinstance(dim, int) and isinstance(off, int) and (b.addr + 8 * (off + dim % 2)) % 32 != 0:
+                self.served_misaligned(it, node, b, dim)
             return 1
         if nm.startswith('squids::detail::cache<') and nm.endswith('::get'):
             dim = this_cell.value.tag
@@ -346,6 +377,31 @@ class OwnHooks(StdHooks):
             return o
         return NotImplemented
 
+    def served_misaligned(self, it, node, b, dim):
+        """a block that is not optimally aligned for vectors of `dim` has just been filed in the cache: the next aligned
+        allocation of that dimension is simulated on the spot (with only this block cached); if the allocator hands the
+        block out as it is, aligned-storage operations on the new vector perform misaligned vector loads"""
+        fs = [f for f in it.unit.by_name.get('squids::SU_vector::alloc_aligned', []) if f.get('body') is not None and len(f['params']) == 4]
+        if len(fs) != 1:
+            raise Unsupported('cannot simulate the aligned allocator (alloc_aligned: %d definitions)' % len(fs))
+        w = self.w
+        saved, saved_events = w.cache.get(dim, []), list(w.events)
+        w.cache[dim] = [b]
+        comp, offc = Cell(NULL, None, 0, 'components'), Cell(0, None, 0, 'ptr_offset')
+        try:
+            it.call(fs[0], None, [dim, dim * dim, comp, offc])
+            p = comp.value
+            blk = w.block_of(p) if isinstance(p, Ptr) else None
+            bad = blk is b and isinstance(p.off, int) and (b.addr + 8 * (p.off + dim % 2)) % 32 != 0
+        finally:
+            w.cache[dim] = saved
+            w.events[:] = saved_events
+            b.state = 'cached'
+        if bad:
+            raise Violation('B.align', 'block %s (element 0 at address %d mod 32, offset %s) is filed in the cache of dimension %d although it is not '
+                            'optimally aligned; the aligned allocator hands it out unchanged to the next vector of that dimension, whose aligned-storage '
+                            'operations then perform misaligned vector loads' % (b.region.name, b.addr % 32, b.cached_offset, dim), it.loc(node))
+
     def external_call(self, it, name, node, args, this_cell):
         if name.startswith('std::unique_ptr<double[]'):
             return self.unique_array_call(it, name.split('>::')[-1] if '>::' in name else name.split('::')[-1], node, args, this_cell)
@@ -357,6 +413,10 @@ class OwnHooks(StdHooks):
         if name.startswith('std::multiplies<double>::multiplies'):
             return Obj('std::multiplies<double>')
         return StdHooks.external_call(self, it, name, node, args, this_cell)
+
+    def on_terminate(self, it, fdecl, thrown):
+        raise Violation('B.exc.terminate', 'the exception "%s" cannot propagate: it reaches the boundary of %s, which is declared non-throwing, and '
+                        'std::terminate is called' % (thrown.what, fdecl['name']), it.unit.loc(fdecl))
 
     def on_ctor_abort(self, it, cell, fdecl):
         self.w.events.append(('ctor-abort', cell.name))
